@@ -80,18 +80,21 @@ CLAIMED.update({
 })
 CLAIMED.update({
     "C02": {
-        "text": "Proof (partial for the control path). Data path, proved in full (Props/C02.v): an instruction flowing alone through the "
-                "modelled ID/EX/MEM/WB stages has exactly the effect of the single-cycle behavior() for every supported instruction, "
-                "operand, register file, memory system and pc (split_agrees), incl. the 32-bit wrap of the JALR target (defect D1, "
-                "fixed), load extension through raw negative intermediates, store masking, x0. Control path: structural laws and the "
-                "reachable-shape invariant of the modelled pipeline (Props/C07.v, C08.v); the full refinement theorem "
-                "pipe_refines_single is stated in DESIGN.md and not yet closed. The property itself is decided on everything explored by "
-                "(a) cycle-by-cycle correspondence of Model/Pipe.v with pipeline.py/stages.py and (b) five-stage vs single-cycle on the "
-                "implementation: exhaustively over all sequences up to length 3 (quick) / 4 (thorough) of a 17-instruction "
-                "hazard-complete alphabet x 2 presets, and random programs incl. wrapping jalr targets, faults, ecall drains.",
-        "note": NOTE_COMMON + "The control-path refinement (stall/flush interplay preserves program order) is not a closed theorem; "
-                "for it the check is exhaustive small-scope + random differential testing. CSR/FENCE/EBREAK excluded.",
-        "technique": "Coq proof of the data path (split = behavior) + pipeline laws; control path by model correspondence and exhaustive small-scope mode comparison",
+        "text": "Props/C02.v + Props/C02Refine.v prove the property for the model in full, for flat data memory without instruction cache: "
+                "pipe_refines_single — for EVERY program of supported instructions, every well-formed initial state and every n, if the "
+                "single-cycle run finishes within n steps the five-stage pipeline with hazard detection finishes within 8n+8 cycles with "
+                "equal registers, memory, output, exit code, retired/branch/call counts and the SAME retire order; if the single-cycle run "
+                "faults, the pipeline raises the identical fault record with equal registers, memory and output (so no wrong-path "
+                "instruction has any effect, and termination transfers). The proof is a stuttering simulation by the invariant Inv "
+                "(Proofs/PipeInv*.v) over all five stall modes, flushes and ecall drains, built on the data-path theorem split_agrees "
+                "(an instruction flowing through ID/EX/MEM/WB = behavior(), incl. the 32-bit JALR wrap — defect D1, fixed) and the "
+                "pipeline laws/Shape invariant. The model is tied to pipeline.py/stages.py cycle by cycle (registers, memory, output, "
+                "latch W, counters, faults; also with caches in C07/C11), and the property is evaluated on the implementation directly: "
+                "five-stage vs single-cycle exhaustively over all sequences up to length 3 (quick) / 4 (thorough) of an 18-instruction "
+                "hazard-complete alphabet x 2 presets, and on random programs incl. wrapping jalr targets, faults, ecall drains, caches.",
+        "note": NOTE_COMMON + "The refinement theorem is stated for flat memory and no instruction cache (with caches the two modes are "
+                "compared differentially; cache transparency is C03/C11). CSR/FENCE/EBREAK excluded as the property says.",
+        "technique": "Coq refinement proof (stuttering simulation five-stage -> single-cycle) + model correspondence + exhaustive small-scope mode comparison",
     },
     "C03": {
         "text": "Props/C03.v proves for every admissible geometry (index/block bits, associativity; PLRU with power-of-two ways), both write "
